@@ -128,7 +128,9 @@ def strategy(tier):
             "zones": st.fixed_dictionaries({"mode": st.sampled_from(["none", "none", "all", "some", "some"]), "n": st.integers(1, 3),
                                             "pick": st.lists(st.integers(0, 11), min_size=1, max_size=8)}),
             # after the first effective edge addition: a SECOND changer adds edges again (positions already occupied), then maybe removes
-            "edgeShape": st.sampled_from(["", "", "twice", "twice-remove"]),
+            #   "long-lived": ONE edge changer E across E.add, T.convert, T.restore, E.remove (nothing to remove), E.add
+            #   "protocol" / "protocol-write": armi's removal protocol add -> [results written] -> scaleParamsRelatedToSymmetry -> remove
+            "edgeShape": st.sampled_from(["", "twice", "twice-remove", "long-lived", "long-lived", "protocol", "protocol-write"]),
             "enabled": st.lists(st.sampled_from(sorted(set(OPS))), min_size=3, max_size=8, unique=True),
             "program": st.lists(_op(), min_size=3, max_size=12),
         }
@@ -747,10 +749,12 @@ class _Run:
         before_cells = {self.ij(a): a for a in core}
         src_serials = set(_serials(core))
         self.restored_changer = None
-        self.edger = gc.EdgeAssemblyChanger()
+        reuse = bool(op.get("reuseEdger")) and self.edger is not None
+        if not reuse:
+            self.edger = gc.EdgeAssemblyChanger()
         self.edger.addEdgeAssemblies(core)
         self.state = "EDGE"
-        self.count("addEdge")
+        self.count("addEdge:long-lived-changer" if reuse else "addEdge")
         have = {self.ij(a): a for a in core}
         want = set(before_cells) | {hm.rotate60(i, j, 2) for (i, j) in (self.ij(a) for a in lower)}
         out.check(set(have) == want, "add-edge/cells-not-the-120-degree-images",
@@ -764,9 +768,15 @@ class _Run:
             out.check(not any(id(o) in shared for o in _walk(a)), "add-edge/copy-shares-objects-with-source", lambda: "%r" % a)
             out.check(not (set(_serials(a)) & src_serials), "add-edge/copy-serial-number-reused", lambda: "%r" % a)
         self.removed_labels = {a.getLocation() for a in added}
-        self.masses()  # what a flux solver does with the edge model: read volumes and masses (fills the volume caches)
+        m = self.masses()  # what a flux solver does with the edge model: read volumes and masses (fills the volume caches)
+        if (-1, 2) in have and not self.s3_dirty_mass and set(have) == want:
+            # HexBlock.getSymmetryFactor: with edge assemblies on both edges the assemblies on the two lines are halves (factor 2), so the
+            # third core with edges holds the same volume and mass as without (armi detects the edges through position (-1, 2))
+            for k in sorted(m):
+                out.check(_rel_ok(m[k], self.s3_mass[k], abs(self.s3_mass[k])), "add-edge/mass-or-volume-changed",
+                          lambda: "%s: %r with edge assemblies, %r without" % (k, m[k], self.s3_mass[k]))
         shape = self.case.get("edgeShape", "")
-        if shape and not self.edge_shape_done:
+        if shape in ("twice", "twice-remove") and not self.edge_shape_done:
             # a second changer object finds the 120-degree positions occupied: "Edge assembly already exists in ... Not adding."
             self.edge_shape_done = True
             before = self.snap()
@@ -786,6 +796,65 @@ class _Run:
                 self.state = "THIRD"
                 self.count("removeEdge:by-second-changer")
                 self.check_back_to_third("remove-edge", scaled_centre=False)
+
+    def shape_long_lived(self, tmpl):
+        """E.add, T.convert (drops the edges with its own changer), T.restore, E.remove (nothing left: resets E), E.add."""
+        from vp.model import observe as ob
+
+        self.op_add_edge(dict(tmpl, op="addEdge"))
+        E = self.edger
+        for kind in ("convert", "restore"):
+            if self.state == "BROKEN":
+                return
+            getattr(self, "op_" + kind)(dict(tmpl, op=kind, fresh=True, light=True))
+        if self.state != "THIRD":
+            return
+        before = self.snap()
+        E.removeEdgeAssemblies(self.core)  # "No edge assemblies to remove." + reset()
+        self.expect_unchanged(before, "remove-edge-after-convert-dropped-them")
+        self.edger = E
+        self.op_add_edge(dict(tmpl, op="addEdge", reuseEdger=True))  # oracle inside: the 120-degree images are occupied
+        _ = ob
+
+    def shape_protocol(self, tmpl, write):
+        """add -> [results written on every block] -> scaleParamsRelatedToSymmetry -> remove (GlobalFluxInterface._undoGeometryTransformations)."""
+        from armi.reactor.converters import geometryConverters as gc
+
+        from vp.model import observe as ob
+
+        self.op_add_edge(dict(tmpl, op="addEdge"))
+        if self.state != "EDGE":
+            return
+        core = self.core
+        have = {self.ij(a): a for a in core}
+        Q = [name for name, kind, vi in self.P if vi and kind == "f"] if write else []
+        v0 = self.case["init"][0] or 1.0
+        base = v0 if 1e-6 < abs(v0) < 1e9 else 1.5
+        for ai, a in enumerate(core):
+            n = self.s3_index.get(id(a))
+            for bi, b in enumerate(a):
+                for qi, name in enumerate(Q):
+                    val = base * (1 + (ai * 3 + bi + qi) % 7)  # non-zero "half-assembly" results on every block of the edge model
+                    b.p[name] = val
+                    if n is not None:
+                        self.s3["children"][n]["children"][bi]["params"][name] = ob.norm_value(val)
+        # docstring: "Scale them right before deleting their symmetric identicals ... identical to combining two half-assemblies into a full one"
+        for cell, a in have.items():
+            if hm.symmetry_line(*cell) != 0:
+                continue
+            up = have.get(hm.rotate60(cell[0], cell[1], 2))
+            n = self.s3_index.get(id(a))
+            if up is None or n is None:
+                continue
+            for bi, (b, bu) in enumerate(zip(a, up)):
+                for name in Q:
+                    self.s3["children"][n]["children"][bi]["params"][name] = ob.norm_value(b.p[name] + bu.p[name])
+        gc.EdgeAssemblyChanger.scaleParamsRelatedToSymmetry(core)
+        self.count("protocol:write" if Q else "protocol:nothing-written")
+        self.edger.removeEdgeAssemblies(core)
+        self.state = "THIRD"
+        self.count("removeEdge")
+        self.check_back_to_third("remove-edge", scaled_centre=False)
 
     def op_remove_edge(self, op):
         from armi.reactor.converters import geometryConverters as gc
@@ -894,8 +963,14 @@ class _Run:
                     self.check_tables("after %s of leading round %d" % (kind, n + 1))
         if rounds and self.case.get("double") and self.state == "THIRD":
             self.op_restore(dict(tmpl, op="restore"))
-        if self.case.get("edgeShape") and self.state == "THIRD" and not no_lower:
-            self.op_add_edge(dict(tmpl, op="addEdge"))  # deliberate shape: add, second changer adds again (and maybe removes)
+        shape = self.case.get("edgeShape")
+        if shape and self.state == "THIRD" and not no_lower:
+            if shape == "long-lived":
+                self.shape_long_lived(tmpl)
+            elif shape.startswith("protocol"):
+                self.shape_protocol(tmpl, shape == "protocol-write")
+            else:
+                self.op_add_edge(dict(tmpl, op="addEdge"))  # add, second changer adds again (and maybe removes)
             if self.state != "BROKEN":
                 self.check_tables("after the leading edge addition")
         for n, op in enumerate(self.case["program"]):
